@@ -368,6 +368,9 @@ func incCase(in map[string]any) map[string]any {
 					if extra < 6*time.Second {
 						extra = 6 * time.Second
 					}
+					if x := vhlib.Num(in, "hang_extra_ms"); x > 0 {
+						extra = time.Duration(x) * time.Millisecond
+					}
 					if hang {
 						extra = 0
 					}
